@@ -12,7 +12,10 @@ import (
 
 var monitors = map[string]func(*vk.Ctx){
 	"smoke": runSmoke,
+	"C01":   runC01,
+	"C03":   runC03,
 	"C06":   runC06,
+	"C07":   runC07,
 }
 
 func main() {
